@@ -69,6 +69,7 @@ class Ctx:
         self.decisions = 0              # total forks taken (over all paths)
         self.model = None               # model of the current solver state, if known
         self.symbols: dict[str, z3.BitVecRef] = {}
+        self.sym_ranges: dict[str, tuple] = {}
         self.obligations: list[z3.BoolRef] = []
         self.max_decisions = max_decisions
         self.path_wall_s = path_wall_s
@@ -86,11 +87,13 @@ class Ctx:
                 raise HarnessError(f'symbol {name} declared after the first branch')
             v = z3.BitVec(name, W)
             self.symbols[name] = v
+            if lo is not None and hi is not None:
+                self.sym_ranges[name] = (lo, hi)
             if lo is not None:
                 self.assume_base(v >= z3.BitVecVal(lo, W))
             if hi is not None:
                 self.assume_base(v <= z3.BitVecVal(hi, W))
-        return SymInt(self.symbols[name])
+        return SymInt(self.symbols[name], self.sym_ranges.get(name))
 
     def assume_base(self, cond) -> None:
         if not self.first_path:
@@ -322,14 +325,38 @@ def B(x):
 _fmt_registry: list = []
 
 
-class SymInt:
-    """Python-int semantics over a W-bit vector, with recorded no-overflow obligations."""
-    __slots__ = ('e',)
+def _rng_of(x):
+    """conservative integer interval of int | SymInt (None = unknown)"""
+    if isinstance(x, SymInt):
+        return x.rng
+    if isinstance(x, (bool, builtins.int)):
+        v = builtins.int(x)
+        return (v, v)
+    if isinstance(x, SymBool):
+        return (0, 1)
+    return None
 
-    def __init__(self, e):
+
+def _fits(r):
+    return r is not None and -(1 << (W - 1)) <= r[0] and r[1] < (1 << (W - 1))
+
+
+class SymInt:
+    """Python-int semantics over a W-bit vector, with recorded no-overflow obligations.
+
+    `rng` is a conservative interval (plain ints) maintained alongside the term; when the interval of a result
+    fits the vector, the no-overflow obligation is discharged without the solver."""
+    __slots__ = ('e', 'rng')
+
+    def __init__(self, e, rng=None):
         if isinstance(e, builtins.int):
+            rng = (e, e)
             e = bvval(e)
+        elif rng is None and z3.is_bv_value(e):
+            v = e.as_signed_long()
+            rng = (v, v)
         self.e = e
+        self.rng = rng
 
     # -- helpers --
     @staticmethod
@@ -349,42 +376,70 @@ class SymInt:
         if not _liftable(o):
             return NotImplemented
         b = Z(o)
-        s._ob(z3.And(z3.BVAddNoOverflow(s.e, b, True), z3.BVAddNoUnderflow(s.e, b)))
-        return SymInt(s.e + b)
+        ra, rb = s.rng, _rng_of(o)
+        r = (ra[0] + rb[0], ra[1] + rb[1]) if ra and rb else None
+        if not _fits(r):
+            r = None
+            s._ob(z3.And(z3.BVAddNoOverflow(s.e, b, True), z3.BVAddNoUnderflow(s.e, b)))
+        return SymInt(s.e + b, r)
     __radd__ = __add__
 
     def __sub__(s, o):
         if not _liftable(o):
             return NotImplemented
         b = Z(o)
-        s._ob(z3.And(z3.BVSubNoOverflow(s.e, b), z3.BVSubNoUnderflow(s.e, b, True)))
-        return SymInt(s.e - b)
+        ra, rb = s.rng, _rng_of(o)
+        r = (ra[0] - rb[1], ra[1] - rb[0]) if ra and rb else None
+        if not _fits(r):
+            r = None
+            s._ob(z3.And(z3.BVSubNoOverflow(s.e, b), z3.BVSubNoUnderflow(s.e, b, True)))
+        return SymInt(s.e - b, r)
 
     def __rsub__(s, o):
         if not _liftable(o):
             return NotImplemented
         a = Z(o)
-        s._ob(z3.And(z3.BVSubNoOverflow(a, s.e), z3.BVSubNoUnderflow(a, s.e, True)))
-        return SymInt(a - s.e)
+        ra, rb = _rng_of(o), s.rng
+        r = (ra[0] - rb[1], ra[1] - rb[0]) if ra and rb else None
+        if not _fits(r):
+            r = None
+            s._ob(z3.And(z3.BVSubNoOverflow(a, s.e), z3.BVSubNoUnderflow(a, s.e, True)))
+        return SymInt(a - s.e, r)
 
     def __mul__(s, o):
         if not _liftable(o):
             return NotImplemented
         b = Z(o)
-        s._ob(z3.And(z3.BVMulNoOverflow(s.e, b, True), z3.BVMulNoUnderflow(s.e, b)))
-        return SymInt(s.e * b)
+        ra, rb = s.rng, _rng_of(o)
+        r = None
+        if ra and rb:
+            ps = [ra[0] * rb[0], ra[0] * rb[1], ra[1] * rb[0], ra[1] * rb[1]]
+            r = (min(ps), max(ps))
+        if not _fits(r):
+            r = None
+            s._ob(z3.And(z3.BVMulNoOverflow(s.e, b, True), z3.BVMulNoUnderflow(s.e, b)))
+        return SymInt(s.e * b, r)
     __rmul__ = __mul__
 
     def __neg__(s):
-        s._ob(z3.BVSNegNoOverflow(s.e))
-        return SymInt(-s.e)
+        r = (-s.rng[1], -s.rng[0]) if s.rng else None
+        if not _fits(r):
+            r = None
+            s._ob(z3.BVSNegNoOverflow(s.e))
+        return SymInt(-s.e, r)
 
     def __pos__(s):
         return s
 
     def __abs__(s):
-        s._ob(z3.BVSNegNoOverflow(s.e))
-        return SymInt(z3.If(s.e < 0, -s.e, s.e))
+        r = None
+        if s.rng:
+            m = max(abs(s.rng[0]), abs(s.rng[1]))
+            r = (0, m)
+        if not _fits(r):
+            r = None
+            s._ob(z3.BVSNegNoOverflow(s.e))
+        return SymInt(z3.If(s.e < 0, -s.e, s.e), r)
 
     def __invert__(s):
         return SymInt(~s.e)
@@ -404,34 +459,45 @@ class SymInt:
         s._ob(z3.Not(z3.And(a == bvval(-(1 << (W - 1))), b == bvval(-1))))
 
     @staticmethod
-    def _fdm(a, b):
+    def _fdm(a, b, ranges=(None, None)):
         """(a // b, a % b) with Python floor semantics; the common non-negative case uses the unsigned operators."""
         tmp = SymInt(a)
         tmp._divcommon(a, b)
+        ra, rb = ranges
         if SymBool(z3.And(a >= 0, b > 0)):
-            return SymInt(z3.UDiv(a, b)), SymInt(z3.URem(a, b))
+            qr = (0, ra[1]) if ra and ra[1] >= 0 else None
+            rr = (0, rb[1] - 1) if rb and rb[1] >= 1 else None
+            return SymInt(z3.UDiv(a, b), qr), SymInt(z3.URem(a, b), rr)
         q, r = SymInt._floordivmod(a, b)
-        return SymInt(q), SymInt(r)
+        m = None
+        if ra:
+            mm = max(abs(ra[0]), abs(ra[1]))
+            m = (-mm - 1, mm + 1)
+        mr = None
+        if rb:
+            mm = max(abs(rb[0]), abs(rb[1]))
+            mr = (-mm, mm)
+        return SymInt(q, m), SymInt(r, mr)
 
     def __floordiv__(s, o):
         if not _liftable(o):
             return NotImplemented
-        return SymInt._fdm(s.e, Z(o))[0]
+        return SymInt._fdm(s.e, Z(o), (s.rng, _rng_of(o)))[0]
 
     def __rfloordiv__(s, o):
         if not _liftable(o):
             return NotImplemented
-        return SymInt._fdm(Z(o), s.e)[0]
+        return SymInt._fdm(Z(o), s.e, (_rng_of(o), s.rng))[0]
 
     def __mod__(s, o):
         if not _liftable(o):
             return NotImplemented
-        return SymInt._fdm(s.e, Z(o))[1]
+        return SymInt._fdm(s.e, Z(o), (s.rng, _rng_of(o)))[1]
 
     def __rmod__(s, o):
         if not _liftable(o):
             return NotImplemented
-        return SymInt._fdm(Z(o), s.e)[1]
+        return SymInt._fdm(Z(o), s.e, (_rng_of(o), s.rng))[1]
 
     def __divmod__(s, o):
         return (s // o, s % o)
@@ -469,12 +535,21 @@ class SymInt:
         if not _liftable(o):
             return NotImplemented
         k = Z(o)
-        if SymBool(k < 0):
+        ra, rk = s.rng, _rng_of(o)
+        if not (rk and rk[0] >= 0) and SymBool(k < 0):
             raise ValueError('negative shift count')
         r = s.e << k
-        # no overflow: shift count below W and arithmetic shift back restores the value
-        s._ob(z3.Or(s.e == 0, z3.And(z3.ULT(k, bvval(W)), (r >> k) == s.e)))
-        return SymInt(z3.If(s.e == 0, bvval(0), r))
+        rr = None
+        if ra and rk and 0 <= rk[0] and rk[1] < 4 * W:
+            ps = [ra[0] << rk[0], ra[0] << rk[1], ra[1] << rk[0], ra[1] << rk[1]]
+            rr = (min(ps), max(ps))
+        if not _fits(rr):
+            rr = None
+            # no overflow: shift count below W and arithmetic shift back restores the value
+            s._ob(z3.Or(s.e == 0, z3.And(z3.ULT(k, bvval(W)), (r >> k) == s.e)))
+        if rr is not None:
+            return SymInt(r, rr)
+        return SymInt(z3.If(s.e == 0, bvval(0), r), rr)
 
     def __rlshift__(s, o):
         return SymInt(Z(o)) << s
@@ -483,10 +558,14 @@ class SymInt:
         if not _liftable(o):
             return NotImplemented
         k = Z(o)
+        rr = (min(s.rng[0], 0), max(s.rng[1], 0)) if s.rng else None
+        rk = _rng_of(o)
+        if rk and 0 <= rk[0] and rk[1] < W:
+            return SymInt(s.e >> k, rr)
         if SymBool(k < 0):
             raise ValueError('negative shift count')
         big = z3.UGE(k, bvval(W))
-        return SymInt(z3.If(big, z3.If(s.e < 0, bvval(-1), bvval(0)), s.e >> k))
+        return SymInt(z3.If(big, z3.If(s.e < 0, bvval(-1), bvval(0)), s.e >> k), rr)
 
     def __rrshift__(s, o):
         return SymInt(Z(o)) >> s
@@ -494,19 +573,34 @@ class SymInt:
     def __and__(s, o):
         if not _liftable(o):
             return NotImplemented
-        return SymInt(s.e & Z(o))
+        ra, rb = s.rng, _rng_of(o)
+        rr = None
+        if rb and rb[0] >= 0:
+            rr = (0, rb[1])
+        elif ra and ra[0] >= 0:
+            rr = (0, ra[1])
+        return SymInt(s.e & Z(o), rr)
     __rand__ = __and__
+
+    @staticmethod
+    def _bitrange(ra, rb):
+        if ra and rb and ra[0] >= 0 and rb[0] >= 0:
+            return (0, (1 << max(ra[1].bit_length(), rb[1].bit_length())) - 1)
+        if ra and rb:
+            m = max(abs(ra[0]), abs(ra[1]), abs(rb[0]), abs(rb[1])).bit_length()
+            return (-(1 << m), (1 << m) - 1)
+        return None
 
     def __or__(s, o):
         if not _liftable(o):
             return NotImplemented
-        return SymInt(s.e | Z(o))
+        return SymInt(s.e | Z(o), SymInt._bitrange(s.rng, _rng_of(o)))
     __ror__ = __or__
 
     def __xor__(s, o):
         if not _liftable(o):
             return NotImplemented
-        return SymInt(s.e ^ Z(o))
+        return SymInt(s.e ^ Z(o), SymInt._bitrange(s.rng, _rng_of(o)))
     __rxor__ = __xor__
 
     # -- comparison --
@@ -548,11 +642,12 @@ class SymInt:
 
     def bit_length(s):
         a = z3.If(s.e < 0, -s.e, s.e)
-        s._ob(z3.BVSNegNoOverflow(s.e))
+        if not (s.rng and _fits((-s.rng[1], -s.rng[0]))):
+            s._ob(z3.BVSNegNoOverflow(s.e))
         r = bvval(0)
         for k in range(0, W - 1):
             r = z3.If(z3.UGE(a, bvval(1 << k)), bvval(k + 1), r)
-        return SymInt(r)
+        return SymInt(r, (0, W))
 
     def to_bytes(s, length=1, byteorder='big', *, signed=False):
         if isinstance(length, SymInt):
@@ -571,11 +666,11 @@ class SymInt:
                 raise OverflowError('int too big to convert')
         else:
             if n == 0:
-                if s != 0:
+                if (s != 0) and (s != -1):      # CPython: (-1).to_bytes(0, signed=True) == b''
                     raise OverflowError('int too big to convert')
             elif (s < -(1 << (8 * n - 1))) or (s >= (1 << (8 * n - 1))):
                 raise OverflowError('int too big to convert')
-        bs = [SymInt(z3.ZeroExt(W - 8, z3.Extract(8 * i + 7, 8 * i, s.e))) for i in range(n)]
+        bs = [SymInt(z3.ZeroExt(W - 8, z3.Extract(8 * i + 7, 8 * i, s.e)), (0, 255)) for i in range(n)]
         if byteorder == 'big':
             bs.reverse()
         elif byteorder != 'little':
@@ -664,6 +759,8 @@ class SymRat:
             return NotImplemented
         if o.n == 0:
             raise ZeroDivisionError('modulo by zero')
+        if s.d.concrete() == 1 and o.d.concrete() == 1:
+            return SymRat(s.n % o.n, 1)         # Fraction(a) % Fraction(b) == Fraction(a % b) for integers
         q = (s / o).floor()
         return s - o * q
 
@@ -681,9 +778,16 @@ class SymRat:
 
     def trunc(s) -> SymInt:
         """Truncation toward zero (what `int()` does)."""
+        if s.d.concrete() == 1:
+            return s.n
         a, b = s.n.e, s.d.e
-        s.n._ob(z3.Not(z3.And(a == bvval(-(1 << (W - 1))), b == bvval(-1))))
-        return SymInt(a / b)
+        rr = None
+        if s.n.rng:
+            m = max(abs(s.n.rng[0]), abs(s.n.rng[1]))
+            rr = (-m, m)
+        else:
+            s.n._ob(z3.Not(z3.And(a == bvval(-(1 << (W - 1))), b == bvval(-1))))
+        return SymInt(a / b, rr)
 
     def _cmpkey(s, o):
         o = SymRat.lift(o)
@@ -837,7 +941,8 @@ class sym_int(metaclass=SymIntType):
         if signed and items:
             n = 8 * len(items)
             acc = z3.SignExt(W - n, z3.Extract(n - 1, 0, acc))
-        return SymInt(acc)
+            return SymInt(acc, (-(1 << (n - 1)), (1 << (n - 1)) - 1))
+        return SymInt(acc, (0, (1 << (8 * len(items))) - 1))
 
 
 def sym_float(x):
